@@ -78,7 +78,7 @@ struct Entry {
 }
 
 // under Miri a smaller table (every static byte is interpreted)
-const CAP_BITS: usize = if cfg!(miri) { 14 } else { 17 };
+const CAP_BITS: usize = if cfg!(miri) { 14 } else { 19 };
 const CAP: usize = 1 << CAP_BITS;
 const EMPTY: Entry = Entry {
     addr: 0,
